@@ -139,6 +139,8 @@ Section SignRaw.
   Variable derive_sk : bytes -> Z -> Z -> option sk.
   Variable sign : sk -> bytes -> bytes.           (* serialised DER signature *)
   Variable zfix : bool.                           (* see Keys/Unlock.v *)
+  Variable sfix : bool.                           (* see Keys/Unlock.v *)
+  Variable nfix : bool.                           (* see Keys/Unlock.v *)
   Variable cfg : amcfg.
 
   Variable pk : Type.
@@ -157,7 +159,7 @@ Section SignRaw.
   Variable pending_height : Z.
 
   Local Notation amstate := (amstate sk).
-  Local Notation step := (step kdf digest shash open_box sk bytes branch_ok derive_sk sign zfix cfg).
+  Local Notation step := (step kdf digest shash open_box sk bytes branch_ok derive_sk sign zfix sfix nfix cfg).
 
   (* the witness template of mass-core's engine for the three script classes:
      witness = [signature ++ [hash type]; redeem script], sha256(redeem) = program,
